@@ -21,7 +21,7 @@ import PdModel.Proto
       → `(line, kind)` reported for a text assigned to `obj.__doc__`
 * `parser <fmt> <u:value> <cls:raw:j>*` → `Field.lineno`s and `ParseError._linenum`s the parser stores
 * `inrange <strLineno> <u:value> <isModule> <linenumber> <d|x|o> <offset>` → `<line> in|out`
-* `sys <W> <verbosity> <op>*`  ops: `m:<sec>:<msg>:<thresh>:<top>:<once>`, `r:<sec>:<obj>:<nerrs>`
+* `sys <W> <verbosity> <op>*`  ops: `m:<sec>:<msg>:<thresh>:<top>:<once>`, `r:<sec>:<obj>:<nerrs>[:<phase>:<name>]`
       (reportErrors), `v:<n>` (set violations), `p:<sec>:<obj>` (add name), `k:<sec>` (touch key)
                                             → `status=… violations=… printed=… pe=<0|1>`
 -/
@@ -158,6 +158,13 @@ def sysOp (s : Sys) (tok : String) : Option Sys :=
     let obj ← obj.toNat?
     let n ← n.toNat?
     some (s.reportErrors sec obj (List.range n))
+  | ["r", sec, obj, n, phase, name] => do
+    let sec ← sec.toNat?
+    let obj ← obj.toNat?
+    let n ← n.toNat?
+    let phase ← phase.toNat?
+    let name ← name.toNat?
+    some (s.reportErrors sec obj (List.range n) phase name)
   | ["v", n] => do
     let n ← n.toNat?
     some { s with violations := n }
